@@ -50,10 +50,10 @@ Check C13_prune_spec :
     (bomb_free v = true -> exists v', prune v = Ok v').
 Check C13_equals_equiv :
   forall a b c, json a = true -> json b = true -> json c = true ->
-    (exists r, equals_core a b = Ok r /\ (r = true <-> a = b)) /\
-    equals_core a a = Ok true /\
-    equals_core a b = equals_core b a /\
-    (equals_core a b = Ok true -> equals_core b c = Ok true -> equals_core a c = Ok true).
+    (exists r, equals_spec a b = Ok r /\ (r = true <-> a = b)) /\
+    equals_spec a a = Ok true /\
+    equals_spec a b = equals_spec b a /\
+    (equals_spec a b = Ok true -> equals_spec b c = Ok true -> equals_spec a c = Ok true).
 Check C13_equals_shortcut_refuted :
   exists a, equals_spec a a = Err ERun /\ equals_impl true a a = Ok true.
 Check C13_type_partition :
